@@ -1085,3 +1085,104 @@ Example api_example :
                  [mk KReg (PReg 0 true [2] 0); mk KReg (PReg 0 true [1] 0)])]
   = Some (AOk {| rkey := 3; rcont := {| ckind := Some KReg; cpay := PReg 0 true [1; 2] 0 |}; rpub := None |}).
 Proof. reflexivity. Qed.
+
+(* ------------------------------------------------------------------------------------------ *)
+(* the retry loop of get_record_from_network on top of the query model: every attempt is a fresh  *)
+(* caller (hence a query of its own or a joined one); the loop's result is the result of ONE     *)
+(* attempt -- nothing is accumulated across attempts                                           *)
+
+Lemma api_loop_err : forall key atts n e, api_loop key n atts = Some (AErr e) ->
+  exists order, In (e, order) atts /\ api_attempt key e order = None.
+Proof.
+  induction atts as [|[o order] atts IH]; intros n e H; cbn [api_loop] in H; [discriminate|].
+  destruct (api_attempt key o order) as [res|] eqn:A.
+  - inversion H; subst. destruct o; cbn in A; try discriminate;
+      try (destruct (handle_split order key); discriminate).
+  - destruct n as [|[|n']].
+    + inversion H; subst. exists order. split; [left; reflexivity | exact A].
+    + inversion H; subst. exists order. split; [left; reflexivity | exact A].
+    + destruct (IH _ _ H) as (order' & Hin & A'). exists order'. split; [right; exact Hin | exact A'].
+Qed.
+
+(* the attempts the loop looks at are a prefix: after a final result nothing later matters *)
+Lemma api_loop_stable : forall key atts n res more, api_loop key n atts = Some res ->
+  api_loop key n (atts ++ more) = Some res.
+Proof.
+  induction atts as [|[o order] atts IH]; intros n res more H; cbn [api_loop] in H; [discriminate|].
+  cbn [app api_loop]. destruct (api_attempt key o order); [exact H|].
+  destruct n as [|[|n']]; try exact H. apply IH. exact H.
+Qed.
+
+Lemma outs_in_split : forall evs x, In x (outs evs) ->
+  exists pre e post, evs = pre ++ e :: post /\ In x (step_outs (final pre) e).
+Proof.
+  induction evs as [|e evs IH] using rev_ind; intros x H.
+  - contradiction.
+  - rewrite outs_snoc in H. apply in_app_or in H. destruct H as [H|H].
+    + destruct (IH x H) as (pre & e0 & post & E & Hin). exists pre, e0, (post ++ [e]).
+      split; [subst evs; rewrite <- app_assoc; reflexivity | exact Hin].
+    + exists evs, e, []. auto.
+Qed.
+
+Lemma outcomes_of_in : forall evs c o, In o (outcomes_of evs c) -> In (c, o) (outs evs).
+Proof.
+  intros evs c o H. unfold outcomes_of in H. apply in_map_iff in H. destruct H as ([c' o'] & E & Hin).
+  apply filter_In in Hin. destruct Hin as [Hin Ec]. cbn in *. apply N.eqb_eq in Ec. subst. exact Hin.
+Qed.
+
+(* `cids` = the callers created by the successive attempts of one get_record_from_network call;
+   `orders` = the iteration orders of the split maps.  Ok(r) is
+   - the Ok of ONE attempt: a single reply event that completed the quorum of that attempt's query,
+     with quorum-many DISTINCT peers having returned r's content to THAT query (a peer answering once
+     in every attempt is one peer in each of them), or
+   - a merge: of one attempt's split at quorum time, or of one attempt's SplitRecord versions *)
+Lemma api_ok_from_single_attempt_lemma : forall evs key n cids orders r,
+  api_loop key n (combine (flat_map (outcomes_of evs) cids) orders) = Some (AOk r) ->
+  (exists c pre e post q po x ps,
+     In c cids /\ evs = pre ++ e :: post /\ e = Found q po r /\
+     find_query q (pending (final pre)) = Some x /\ In c (qcallers x) /\
+     NoDup ps /\ quorum_value (cq (qcfg x)) <= nlen ps /\
+     (forall p, In p ps -> replied (pre ++ [e]) q p (rcont r)) /\
+     does_target_match (qcfg x) r = true) \/
+  (exists c o, In c cids /\ In (c, o) (outs evs) /\
+     (o = OMerged r \/ exists vs order, o = ESplit vs /\ handle_split order key = Some r)).
+Proof.
+  intros evs key n cids orders r H.
+  destruct (api_loop_ok _ _ _ _ H) as (o & order & Hin & Ho).
+  apply in_combine_l in Hin. apply in_flat_map in Hin. destruct Hin as (c & Hc & Hoc).
+  apply outcomes_of_in in Hoc.
+  destruct Ho as [Ho|[Ho|(vs & Ho & Hs)]]; subst o.
+  - left. destruct (outs_in_split _ _ Hoc) as (pre & e & post & E & Hstep).
+    destruct (ok_under_query_cfg_lemma _ _ _ _ Hstep) as (q & po & x & ps & E1 & F & Hcx & ND & Q & R & T).
+    exists c, pre, e, post, q, po, x, ps. auto 12.
+  - right. exists c, (OMerged r). auto.
+  - right. exists c, (ESplit vs). split; [exact Hc|]. split; [exact Hoc|]. right. exists vs, order. auto.
+Qed.
+
+(* an error is the error of the last attempt made, unchanged *)
+Lemma api_err_is_last_attempt_lemma : forall evs key n cids orders e,
+  api_loop key n (combine (flat_map (outcomes_of evs) cids) orders) = Some (AErr e) ->
+  exists c, In c cids /\ In (c, e) (outs evs).
+Proof.
+  intros evs key n cids orders e H. destruct (api_loop_err _ _ _ _ H) as (order & Hin & _).
+  apply in_combine_l in Hin. apply in_flat_map in Hin. destruct Hin as (c & Hc & Hoc).
+  exists c. split; [exact Hc | apply outcomes_of_in; exact Hoc].
+Qed.
+
+(* non-vacuity, and the seeded scenario: Quorum::N(2), three attempts, the same single peer answers
+   in each: NotEnoughCopies (1/2) -- never Ok *)
+Example retry_same_peer_example :
+  let c := {| cq := QN 2; ctarget := None; cisreg := false; cholders := [] |} in
+  let r := mk KChunk (POpaque 1) in
+  let evs := [Cmd 1 c; Found 0 (Some 1) r; Finished 0; Cmd 1 c; Found 1 (Some 1) r; Finished 1;
+              Cmd 1 c; Found 2 (Some 1) r; Finished 2] in
+  api_loop 1 3 (combine (flat_map (outcomes_of evs) [0; 1; 2]) [[]; []; []]) = Some (AErr (ENotEnough r 2 1)).
+Proof. reflexivity. Qed.
+
+(* ... while two different peers within one attempt do succeed (second attempt) *)
+Example retry_ok_example :
+  let c := {| cq := QN 2; ctarget := None; cisreg := false; cholders := [] |} in
+  let r := mk KChunk (POpaque 1) in
+  let evs := [Cmd 1 c; Found 0 (Some 1) r; Finished 0; Cmd 1 c; Found 1 (Some 1) r; Found 1 (Some 2) r] in
+  api_loop 1 3 (combine (flat_map (outcomes_of evs) [0; 1]) [[]; []]) = Some (AOk r).
+Proof. reflexivity. Qed.
